@@ -168,6 +168,32 @@ class Laws:
                 self.viol("add_element_changes_nothing_else", {"leaf": k, "index": i, "desc": desc})
         if any(not np.array_equal(x, y) for x, y in zip(before, leaves(stacked))):
             self.viol("add_element_does_not_modify_input", {"desc": desc})
+        # the same element handed over in *wider* dtypes (an int32 0/1 mask for a bool leaf, int32 for int8, float32 for
+        # float16 - values that fit): structure and dtypes of the batched tree must still be preserved
+        import jax
+        import jax.numpy as jnp
+
+        def widen(x):
+            a = np.asarray(x)
+            if a.dtype == np.bool_ or (np.issubdtype(a.dtype, np.integer) and a.dtype.itemsize < 4):
+                return jnp.asarray(a.astype(np.int32))
+            if a.dtype == np.float16:
+                return jnp.asarray(a.astype(np.float32))
+            return x
+
+        elem_w = jax.tree_util.tree_map(widen, elem)
+        if any(np.asarray(x).dtype != np.asarray(y).dtype for x, y in zip(jax.tree_util.tree_leaves(elem_w), jax.tree_util.tree_leaves(elem))):
+            self.ev("add_element_wider_dtype")
+            try:
+                out_w = tu.tree_add_element(stacked, i, elem_w)
+            except Exception as e:
+                self.viol("tree_add_element_raises", {"error": repr(e)[:200], "index": i, "desc": desc, "element": "wider dtypes"}, qualifier="wider_element_dtype")
+                return
+            for k, (o, s_, e) in enumerate(zip(leaves(out_w), ls, le)):
+                if o.shape != s_.shape or o.dtype != s_.dtype:
+                    self.viol("add_element_preserves_shape_dtype", {"leaf": k, "got": [list(o.shape), str(o.dtype)], "want": [list(s_.shape), str(s_.dtype)], "element": "wider dtypes", "desc": desc}, qualifier="wider_element_dtype")
+                elif not np.array_equal(o[i], e.astype(s_.dtype)):
+                    self.viol("add_element_sets_index", {"leaf": k, "index": i, "element": "wider dtypes", "desc": desc}, qualifier="wider_element_dtype")
 
     def cross_dtype_near_misses(self, desc):
         """Pairs of *JAX* leaves of different dtypes whose values differ only by what a 32/16-bit promotion would lose
@@ -185,6 +211,9 @@ class Laws:
             (jnp.asarray([255 - k], jnp.uint8), jnp.asarray([-1 - k], jnp.int8)),
             (jnp.asarray([3 + k, 7], jnp.int32), jnp.asarray([3 + k, 7], jnp.float32)),          # really equal
             (jnp.asarray([True, False]), jnp.asarray([1, 0], jnp.int8)),                          # really equal
+            (jnp.asarray([0.0, 1.5, -0.0], jnp.float32), jnp.asarray([-0.0, 1.5, 0.0], jnp.float32)),  # equal elements: 0.0 == -0.0
+            (np.asarray([0.0, -0.0], np.float32), np.asarray([-0.0, 0.0], np.float32)),                 # the same with NumPy leaves
+            (jnp.asarray([-0.0], jnp.float16), jnp.asarray([0.0], jnp.float32)),                        # and across dtypes
             (jnp.asarray([0.1], jnp.float32), jnp.asarray([0.1], jnp.float16)),                   # 0.1 differs between the two
         ]
         wrap = [lambda x: {"a": x}, lambda x: [x, jnp.zeros((2,), jnp.int32)], lambda x: (x,)][int(rng.integers(0, 3))]
